@@ -57,6 +57,13 @@ Theorem C17_json_surrogate_halves_collapse :
 Proof. exact l_pair_collapses. Qed.
 Print Assumptions C17_json_surrogate_halves_collapse.
 
+(* the stored text is pure ASCII whatever the content (ensure_ascii): what sqlite receives never depends on an encoding *)
+Theorem C17_json_text_ascii : forall a,
+  Forall (fun kv => Forall (fun c => (c < 1114112)%N) (fst kv) /\ Forall (Forall (fun c => (c < 1114112)%N)) (snd kv)) a ->
+  Forall (fun c => (c < 128)%N) (dumps_attrs a).
+Proof. exact l_dumps_attrs_ascii. Qed.
+Print Assumptions C17_json_text_ascii.
+
 (* merge_attributes: per key exactly the union of both arguments' values (numeric_sort on or off) ... *)
 Theorem C17_merge_attributes_union : forall numeric a1 a2 m, NoDup (map fst a1) -> NoDup (map fst a2) ->
   merge_attributes numeric a1 a2 = Ok m ->
